@@ -152,6 +152,17 @@ func init() {
 		}
 		s.obs("hdr %s", showHeader(f.db.Header()))
 	})
+	// hdrof F: the header read by a fresh handle on the path
+	register("hdrof", func(s *sess, tk []string) {
+		f := s.file(tk[1])
+		db, err := wt.Open(f.path, wt.WithoutFlock())
+		if err != nil {
+			s.obs("hdrof openerr")
+			return
+		}
+		defer db.Close()
+		s.obs("hdrof %s", showHeader(db.Header()))
+	})
 	// dec KIND HEX
 	register("dec", func(s *sess, tk []string) {
 		s.obs("dec %s", decodeKind(tk[1], unhex(tk[2])))
